@@ -441,18 +441,39 @@ def clause_next_height_siblings(R, F):
             atoms = [show(a) for a in l.terms]
             R.samples.append({"rule": "NEXT-HEIGHT", "fn": fn.name, "returns": "%s  [k=%d]" % (s[:120], l.k)})
         if is_db:
-            # the value when no block exists: every `unwrap_or(d)` default in a returned term stands for "no last key"
+            # the value when no block exists: the default of `last_key().unwrap_or(d) + c` or of `last_key().map_or(d, f)`
+            found = 0
             for l, s in forms:
                 for a in l.terms:
                     for c in calls_in(a):
-                        if c[1].split("::")[-1] == "unwrap_or" and "last_key" in show(c):
+                        m = c[1].split("::")[-1]
+                        if m in ("unwrap_or", "map_or") and mentions(c, "last_key"):
                             d = lin(c[2][1])
-                            empty_value = d.k + l.k
+                            empty_value = d.k + (l.k if m == "unwrap_or" else 0)
+                            found += 1
                             R.ob(empty_value == 0 and not d.terms, "NEXT-HEIGHT", fn.where(),
                                  "NEXT-HEIGHT|%s|empty" % fn.name.split("::")[-2],
                                  "on an empty database (no last key) the stamp height evaluates to %d; the engine builds height 0 "
                                  "first, so genesis state is stamped %d and a reorg to 0 drops it" % (empty_value, empty_value),
                                  sample={"rule": "NEXT-HEIGHT", "fn": fn.name, "empty_db_value": empty_value})
+                            if m == "map_or":
+                                # the non-empty arm: closure must be last + 1
+                                from terms import closures_in_term
+                                from guards import return_form
+                                okc = False
+                                for cid in closures_in_term(c[2][2]):
+                                    g = fn.facts.fns.get(cid)
+                                    for b in g.blocks:
+                                        for st_ in b["stmts"]:
+                                            if st_["k"] == "assign" and st_["lhs"]["l"] == 0:
+                                                lt = lin(rvalue_origin(g, st_["rv"], 0, frozenset(), 20))
+                                                if lt.k == 1 and len(lt.terms) == 1:
+                                                    okc = True
+                                R.ob(okc, "NEXT-HEIGHT", fn.where(), "NEXT-HEIGHT|%s|succ-closure" % fn.name.split("::")[-2],
+                                     "with a last block the next height is not last + 1")
+            R.ob(found >= 1, "NEXT-HEIGHT", fn.where(), "NEXT-HEIGHT|%s|empty-case-found" % fn.name.split("::")[-2],
+                 "cannot determine the stamp height of an empty database (idiom not recognised: expected last_key().unwrap_or(d)+c or "
+                 ".map_or(d, |l| l + 1)); returned forms: %s" % [s for _, s in forms])
             # the non-empty cases must be last + 1
             for l, s in forms:
                 if l.terms:
